@@ -9,8 +9,8 @@ Local Open Scope N_scope.
 (* like [emits], with code that depends on the address it starts at *)
 Definition emitsB (m : M unit) (names : list str) (code : list (N * N) -> N -> list instr) : Prop :=
   forall s s', ctx s -> m s = ROk tt s' ->
-    ctx s' /\ sub (cs_ids s) (cs_ids s') /\
-    (forall n, In n names -> nm_find (handle_of_bytes n) (cs_ids s') <> None) /\
+    ctx s' /\ sub2 s s' /\
+    (forall n, In n names -> named s' n) /\
     (forall T, sub (cs_ids s') T -> cs_code s' = rev (code T (cs_pc s)) ++ cs_code s).
 
 Lemma emits_B m n c : emits m n c -> emitsB m n (fun T _ => c T).
@@ -43,13 +43,12 @@ Proof.
   intros H1 H2 s s' Hc H. apply bind_ok in H. destruct H as ([] & s1 & E1 & E2).
   destruct (H1 _ _ Hc E1) as (Hc1 & Hs1 & Hn1 & Hk1).
   destruct (H2 _ _ Hc1 E2) as (Hc2 & Hs2 & Hn2 & Hk2).
-  split; [exact Hc2|]. split; [eapply sub_trans; eauto|]. split.
+  split; [exact Hc2|]. split; [eapply sub2_trans; eauto|]. split.
   - intros n Hin. apply in_app_or in Hin. destruct Hin as [Hin|Hin]; [|auto].
-    specialize (Hn1 n Hin). destruct (nm_find (handle_of_bytes n) (cs_ids s1)) as [id|] eqn:E; [|congruence].
-    rewrite (Hs2 _ _ E). discriminate.
+    eapply named_sub2; [apply Hn1, Hin | exact Hs2].
   - intros T HT.
-    rewrite (Hk2 T HT), (Hk1 T (sub_trans _ _ _ Hs2 HT)).
-    rewrite (emitsB_pc _ _ _ _ _ T H1 Hc E1 (sub_trans _ _ _ Hs2 HT)).
+    rewrite (Hk2 T HT), (Hk1 T (sub_trans _ _ _ (proj1 Hs2) HT)).
+    rewrite (emitsB_pc _ _ _ _ _ T H1 Hc E1 (sub_trans _ _ _ (proj1 Hs2) HT)).
     rewrite rev_app_distr, app_assoc. reflexivity.
 Qed.
 
@@ -194,7 +193,7 @@ Proof.
   destruct (HB' _ _ Hc4 E5) as (Hc5 & Hs5 & Hn5 & Hk5).
   pose proof Hc5 as (Hl5 & Hu5 & Hp5).
   assert (Hids4 : cs_ids (set_index (cs_fn s4) (tl (cs_idx s4)) s4) = cs_ids s2) by reflexivity.
-  rewrite Hids4 in Hs5.
+  assert (Hs25 : sub2 s2 s5) by exact Hs5. clear Hs5. pose proof (proj1 Hs25) as Hs5.
   assert (Hpc4 : cs_pc (set_index (cs_fn s4) (tl (cs_idx s4)) s4) = cs_pc s2 + 5) by reflexivity.
   (* the second patch *)
   assert (Hshape : forall T, sub (cs_ids s5) T ->
@@ -226,12 +225,11 @@ Proof.
   { rewrite (Hs' _ (sub_refl _)). apply ctx_set_code; [|exact Hc5].
     destruct (Hshape _ (sub_refl _)) as (HcT & _ & _). rewrite Hp5, HcT, !bytes_app. cbn [bytes].
     change (spanN (IGoto _)) with 5. reflexivity. }
-  rewrite Hids'.
-  split; [eapply sub_trans; eauto|]. split.
-  { intros n Hin. apply in_app_or in Hin. destruct Hin as [Hin|Hin]; [|auto].
-    specialize (Hn2 n Hin). destruct (nm_find (handle_of_bytes n) (cs_ids s2)) as [id|] eqn:En; [|congruence].
-    rewrite (Hs5 _ _ En). discriminate. }
-  intros T HT5.
+  assert (Hs5' : sub2 s5 s') by (rewrite (Hs' _ (sub_refl _)); split; intros ? ? H; exact H).
+  split; [eapply sub2_trans; [|exact Hs5']; eapply sub2_trans; [exact Hs2 | exact Hs25]|]. split.
+  { intros n Hin. eapply named_sub2; [|exact Hs5']. apply in_app_or in Hin. destruct Hin as [Hin|Hin]; [|auto].
+    eapply named_sub2; [apply Hn2, Hin | exact Hs25]. }
+  rewrite Hids'. intros T HT5.
   rewrite (Hs' T HT5). cbn [cs_code set_code]. destruct (Hshape T HT5) as (_ & HpT2 & HpT5).
   unfold code_if_else. cbv zeta.
   replace (cs_pc s + 5 + bytes (ca T (cs_pc s + 5)) + 5) with (cs_pc s2 + 5) by (rewrite HpT2; reflexivity).
@@ -362,7 +360,8 @@ Theorem compile_f2_shape M B :
     p_bytecode B = encode (code_main2 (p_ids B) 0 (main_cards M) ++ IExit :: rest) /\
     (forall n, In n (main_names2 (main_cards M)) -> nm_find (handle_of_bytes n) (p_ids B) <> None) /\
     (forall h1 h2 id, nm_find h1 (p_ids B) = Some id -> nm_find h2 (p_ids B) = Some id -> h1 = h2) /\
-    (forall h id, nm_find h (p_ids B) = Some id -> id < two32).
+    (forall h id, nm_find h (p_ids B) = Some id -> id < two32) /\
+    handles_inj (main_names2 (main_cards M)) = true.
 Proof.
   intros HM HB Hlen. destruct M as [subs funs imps]. cbn [in_f2] in HM.
   destruct subs; [|discriminate]. destruct funs as [|[name f] [|]]; try discriminate.
@@ -399,12 +398,13 @@ Proof.
   destruct (g_ids _ _ _ Gs Hlen) as [Inv Ilt Iinj Iext].
   destruct (g_code _ _ _ Gs) as [l El].
   assert (Hsub : sub (cs_ids s2) (cs_ids s)) by exact Iext.
-  exists (rev l). split; [|split; [|split]].
+  exists (rev l). split; [|split; [|split; [|split]]].
   - f_equal. rewrite El, (Hcode2 _ Hsub), c1, p1. cbn [s0 init_state cs_code cs_pc]. rewrite app_nil_r, rev_app_distr, rev_involutive.
     rewrite <- app_assoc. reflexivity.
-  - intros n Hin. specialize (Hnames2 n Hin).
+  - intros n Hin. pose proof (named_found _ _ (Hnames2 n Hin)) as Hnf.
     destruct (nm_find (handle_of_bytes n) (cs_ids s2)) as [id|] eqn:En; [|congruence].
     rewrite (Hsub _ _ En). discriminate.
   - exact Iinj.
   - intros h id Hf. specialize (Ilt _ _ Hf). rewrite Inv in Ilt. lia.
+  - apply (named_inj s2 _ eq_refl Hnames2).
 Qed.
